@@ -146,6 +146,15 @@ def make_membership(shape: Dict[str, Any]) -> Any:
         ctx.check(bool(rrset.suppresses(a)) == bool(same and 2 * ttl_b > ttl_a), 'known-answer suppression is not "same record and more than half the TTL"')
         if same:
             ctx.check(hash(a) == hash(b), 'equal records have different hashes')
+        if kind == 'NSEC':
+            # the identity of a record must not follow later changes of an object the caller handed in (the type list of an NSEC record
+            # is the only mutable identity field)
+            types = list(rda[1])
+            c = DNSNsec(na, t, ca, ttl_a, rda[0], types, 1)
+            h0, eq0 = hash(c), (c == a)
+            types.append(33)
+            types.sort(reverse=True)
+            ctx.check(hash(c) == h0 and (c == a) == eq0 and c == a, 'an NSEC record changed identity when the list it was built from was modified afterwards')
         # the record cache: every lookup by record follows record identity, both ways round
         from zeroconf._cache import DNSCache
 
